@@ -208,6 +208,18 @@ theorem rr_plan_valid (ms : Members) (ts : Topics) (tps : List TP) (hne : ms ≠
     rw [this]
     exact count_eq_one_of_mem_nodup (htp e he) hp'
 
+/-- the call site provides the hypothesis of `rr_valid`: `consumerGroup.balance` builds the `topics` argument from
+    the members' subscriptions, so every topic in it has a subscriber (the harness compares the model function with
+    what the real `balance` hands to the strategy) -/
+theorem balance_topics_have_subscribers (ms : Members) (t : Topic) (h : t ∈ topicsOfMembers ms) :
+    hasSubscriber ms t = true := by
+  unfold topicsOfMembers at h
+  rw [List.mem_eraseDups, List.mem_flatMap] at h
+  obtain ⟨e, he, ht⟩ := h
+  unfold hasSubscriber
+  rw [List.any_eq_true]
+  exact ⟨e, he, List.contains_iff_mem.mpr ht⟩
+
 /-- non-vacuity: members 1{t0,t1}, 2{t1}, 3{t0}; t0 has 3 partitions, t1 has 2; the cursor skips non-subscribers -/
 example : rrPlan [(1, [0, 1]), (2, [1]), (3, [0])] false [(0, 0), (0, 1), (0, 2), (1, 0), (1, 1)] =
     .plan [(1, [(0, 0), (0, 2), (1, 1)]), (3, [(0, 1)]), (2, [(1, 0)])] := by decide
